@@ -400,6 +400,9 @@ func (e *Engine) verifyFunc(key string, timeoutS, seed int, allSolvers bool, sol
 		return res
 	}
 	con := e.contracts[key]
+	if con != nil && con.BitVector {
+		return e.verifyBV(key, con, timeoutS, seed, allSolvers, solve)
+	}
 	t0 := time.Now()
 	// discovery of loop havoc sets
 	prev := map[int]*loopInfo{}
